@@ -75,7 +75,9 @@ fn gen(rng: &mut Rng, _i: u64) -> String {
 	{
 		let mut s2 = spec.clone();
 		s2.e_lfanew = 0x40;
-		nt = s2.header_bytes()[0x40..].to_vec();
+		// the don't-care fields of the file / optional / section headers are re-drawn in half the cases (fourth audit, H3:
+		// C07 owns validate_headers, by_rva and by_name, and every case carried canonical Characteristics, alignments, Machine)
+		nt = scrambled_header(&s2, rng)[0x40..].to_vec();
 	}
 	let mut dos = vec![0u8; 64];
 	dos[0] = b'M'; dos[1] = b'Z';
